@@ -15,7 +15,7 @@ from harness.props import C01_ast
 # Corr.C01.failing returns the ids of failing cases as Z (binary; a unary nat of depth ~50000 cannot be read back from
 # the VM); Z_scope is opened so that the list prints without scope delimiters, as common.run_case_shards expects.
 HEADER = """From Coq Require Import List ZArith Bool Uint63. Import ListNotations.
-From TLV Require Import Base.Tensor Corr.C01.
+From TLV Require Import Base.Tensor Model.BasePy Corr.C01.
 Open Scope Z_scope."""
 
 REFOLD = ("fold", "partial_fold", "vec_to_tensor", "partial_vec_to_tensor")
@@ -65,6 +65,11 @@ def zopt_list(x):
     return "None" if x is None else f"(Some {C.z_list(x)})"
 
 
+def pyseq_lit(x):
+    """row_modes / column_modes as the source receives them: a bare int or a sequence"""
+    return f"(PInt {C.z(x)})" if isinstance(x, int) else f"(PSeq {C.z_list(list(x))})"
+
+
 def spec_lit(spec):
     return "[" + "; ".join("None" if s == -1 else f"Some {s}%nat" for s in spec) + "]"
 
@@ -80,9 +85,11 @@ def oplit(d):
     if n == "partial_tensor_to_vec": return f"(OPVec {d[1]}%nat {d[2]}%nat)"
     if n == "partial_vec_to_tensor": return f"(OPUnvec {C.nat_list(d[1])} {d[2]}%nat {d[3]}%nat)"
     if n == "matricize":
-        rows = [d[1]] if isinstance(d[1], int) else list(d[1])
-        cols = None if d[2] is None else ([d[2]] if isinstance(d[2], int) else list(d[2]))
-        return f"(OMat {C.z_list(rows)} {zopt_list(cols)})"
+        return f"(OMat {pyseq_lit(d[1])} {'None' if d[2] is None else '(Some ' + pyseq_lit(d[2]) + ')'})"
+    if n == "partial_unfold_z": return f"(OPUnfoldZ {C.z(d[1])} {C.z(d[2])} {C.z(d[3])} {C.boolc(d[4])})"
+    if n == "partial_fold_z": return f"(OPFoldZ {C.z(d[1])} {C.nat_list(d[2])} {C.z(d[3])} {C.z(d[4])})"
+    if n == "partial_tensor_to_vec_z": return f"(OPVecZ {C.z(d[1])} {C.z(d[2])})"
+    if n == "partial_vec_to_tensor_z": return f"(OPUnvecZ {C.nat_list(d[1])} {C.z(d[2])} {C.z(d[3])})"
     if n == "moveaxis": return f"(OMove {C.z(d[1])} {C.z(d[2])})"
     if n == "moveaxis_generic": return f"(OMoveG {C.z(d[1])} {C.z(d[2])})"
     if n == "transpose": return f"(OTrans {C.nat_list(d[1])})"
@@ -108,6 +115,10 @@ def direct_call(d):
         rows = d[1] if isinstance(d[1], int) else list(d[1])
         cols = None if d[2] is None else (d[2] if isinstance(d[2], int) else list(d[2]))
         return lambda a: base.matricize(a, rows, cols)
+    if n == "partial_unfold_z": return lambda a: tl.partial_unfold(a, d[1], d[2], d[3], d[4])
+    if n == "partial_fold_z": return lambda a: tl.partial_fold(a, d[1], d[2], d[3], d[4])
+    if n == "partial_tensor_to_vec_z": return lambda a: tl.partial_tensor_to_vec(a, d[1], d[2])
+    if n == "partial_vec_to_tensor_z": return lambda a: tl.partial_vec_to_tensor(a, d[1], d[2], d[3])
     if n == "moveaxis": return lambda a: tl.moveaxis(a, d[1], d[2])
     if n == "moveaxis_generic":
         from tensorly.backend.core import Backend
@@ -127,6 +138,8 @@ def forward_call(d):
     if n == "fold": return lambda a: tl.unfold(a, d[3])
     if n == "partial_fold": return lambda a: tl.partial_unfold(a, d[5], d[3], d[4], d[6])
     if n == "partial_vec_to_tensor": return lambda a: tl.partial_tensor_to_vec(a, d[2], d[3])
+    if n == "partial_fold_z": return lambda a: tl.partial_unfold(a, d[1], d[3], d[4], False)
+    if n == "partial_vec_to_tensor_z": return lambda a: tl.partial_tensor_to_vec(a, d[2], d[3])
     return None
 
 
@@ -168,6 +181,22 @@ def shapes(orders, dims):
 
 def gen_cases(tier, rng):
     """yields (description, shape of the original tensor)"""
+    # high-order stream: orders 5..11 over mode sizes {1,2} (book-keeping on long mode lists); NOT exhaustive
+    hi = []
+    for o in range(5, 12):
+        for _ in range(3 if tier == "quick" else 12):
+            s = tuple(rng.choice([1, 2, 2]) for _ in range(o))
+            if 2 <= int(np.prod(s)) <= 1024:
+                hi.append(s)
+    # order 5/6 with equal neighbouring sizes and size-1 modes in between (where a wrong axis order is invisible on smaller orders)
+    for _ in range(6 if tier == "quick" else 30):
+        o = rng.choice([5, 6])
+        s = tuple(rng.choice([1, 2, 2, 3]) for _ in range(o))
+        if int(np.prod(s)) <= 1024:
+            hi.append(s)
+    for s in hi:
+        yield from gen_shape(s, tier, rng, light=True)
+    # (generated FIRST: these are the expensive cases for the Coq side, which evaluates shards while Python still produces)
     if tier == "quick":
         shp = [()] + list(shapes([1, 2, 3, 4], [1, 2, 3]))
     else:
@@ -193,21 +222,6 @@ def gen_cases(tier, rng):
     for s in shapes([4], [0, 1, 2]) if tier == "quick" else shapes([4], [0, 1, 2, 3]):
         if 0 in s:
             yield from gen_shape(s, tier, rng, light=True)
-    # high-order stream: orders 5..11 over mode sizes {1,2} (book-keeping on long mode lists); NOT exhaustive
-    hi = []
-    for o in range(5, 12):
-        for _ in range(3 if tier == "quick" else 12):
-            s = tuple(rng.choice([1, 2, 2]) for _ in range(o))
-            if 2 <= int(np.prod(s)) <= 1024:
-                hi.append(s)
-    # order 5/6 with equal neighbouring sizes and size-1 modes in between (where a wrong axis order is invisible on smaller orders)
-    for _ in range(6 if tier == "quick" else 30):
-        o = rng.choice([5, 6])
-        s = tuple(rng.choice([1, 2, 2, 3]) for _ in range(o))
-        if int(np.prod(s)) <= 1024:
-            hi.append(s)
-    for s in hi:
-        yield from gen_shape(s, tier, rng, light=True)
 
 
 def gen_shape(s, tier, rng, light):
@@ -258,6 +272,18 @@ def gen_shape(s, tier, rng, light):
         if sb + se < n:
             yield ("partial_tensor_to_vec", sb, se), s
             yield ("partial_vec_to_tensor", s, sb, se), s
+    # NEGATIVE skip_begin / skip_end: outside the documented domain; what the source does is deterministic (an empty
+    # range, a truthy int, negative axes of moveaxis, list.insert at a negative position) and is compared with the
+    # statement-by-statement model (C01_g_Permutation still applies: a successful request permutes the entries)
+    if n and (not light or rng.random() < 0.5):
+        zs = [(sb, se) for sb in range(-n - 1, n + 1) for se in range(-2, n + 1) if sb < 0 or se < 0]
+        for sb, se in (zs if n <= 2 and not light else rng.sample(zs, min(len(zs), 5))):
+            m = rng.randrange(-1, n)
+            rav = rng.random() < 0.5
+            yield ("partial_unfold_z", m, sb, se, rav), s
+            yield ("partial_fold_z", m, s, sb, se), s
+            yield ("partial_tensor_to_vec_z", sb, se), s
+            yield ("partial_vec_to_tensor_z", s, sb, se), s
     if n:
         yield ("partial_unfold", 0, n, 0, False), s                 # skip_begin = ndim
         yield ("partial_unfold", 0, 0, n + 1, True), s              # skip_end > ndim
@@ -463,8 +489,8 @@ def spec_predicate(d, orig, out):
 
 DTYPES = [np.bool_, np.int8, np.int16, np.int32, np.uint8, np.uint64, np.float16, np.float32, np.float64, np.complex64, np.complex128, object,
           np.dtype(">f8"), np.dtype(">i2")]          # the last two: non-native byte order (a copy through a native dtype is a re-typing)
-ROT_STEP = 11                                          # coprime to len(DTYPES) * len(LAYOUTS) = 56: the rotation visits every combination
-LAYOUTS = ["C", "F", "strided", "neg"]
+ROT_STEP = 11                                          # coprime to len(DTYPES) * len(LAYOUTS) = 84: the rotation visits every combination
+LAYOUTS = ["C", "F", "strided", "neg", "transposed", "broadcast"]
 _POOL = {}
 
 
@@ -519,6 +545,17 @@ def relayout(a, layout):
         return view
     if layout == "neg":
         return np.flip(np.flip(a).copy())          # negative strides along every axis
+    if layout == "transposed":
+        # a transposed view whose strides are a rotation of the C order (neither C- nor F-contiguous for order >= 3;
+        # order 2: the plain .T view)
+        p = list(range(1, a.ndim)) + [0]
+        inv = [p.index(i) for i in range(a.ndim)]
+        return np.ascontiguousarray(a.transpose(p)).transpose(inv)
+    if layout == "broadcast":
+        # a read-only broadcast view with ZERO strides along every other axis (the logical content changes: the entries
+        # along those axes are repeated; the caller compares with THIS array's logical content)
+        idx = tuple(slice(0, 1) if (k % 2 == 0 and a.shape[k] > 1) else slice(None) for k in range(a.ndim))
+        return np.broadcast_to(a[idx], a.shape)
     raise KeyError(layout)
 
 
@@ -544,7 +581,11 @@ def dtype_predicate(fn, a_int, out_int, dtype, layout="C", codes=None):
         return f"dtype changed {a.dtype} -> {v.dtype}"
     if v.shape != out_int.shape:
         return f"shape differs between dtypes: {v.shape} vs {out_int.shape}"
-    exp = vals[out_int.ravel()] if n else np.empty(0, dtype=dtype)
+    # the output entry that the labelled run took from input position p must be the input's entry at logical position p
+    # (lab is arange for a direct input and the unfolding's labels for a refolding input: position of label q = argsort(lab)[q])
+    flat_in = a.ravel()
+    pos = np.argsort(lab, kind="stable") if n else lab
+    exp = flat_in[pos[out_int.ravel()]] if n else np.empty(0, dtype=dtype)
     got = v.ravel()
     if dtype is object:
         same = all(x is y or (type(x) is type(y) and x == y) for x, y in zip(got, exp))
@@ -557,9 +598,12 @@ def dtype_predicate(fn, a_int, out_int, dtype, layout="C", codes=None):
 
 # ----------------------------------------------------------------------------- ast tie
 TIE_HEADER = """From Coq Require Import List ZArith Bool Uint63. Import ListNotations.
-From TLV Require Import Base.Tensor Model.BaseExt Model.BasePy Model.BasePyCore Corr.C01.
+From TLV Require Import Base.Tensor Model.BaseExt Model.BasePy Model.BasePyCore Proofs.BaseProofs18 Corr.C01.
 """
 TIE_TACTIC = """Ltac tie_mon := repeat match goal with |- context [rbind ?r _] => destruct r; cbn [rbind] end.
+Ltac tie_case := repeat match goal with x : pyseq |- _ => destruct x | x : option pyseq |- _ => destruct x | x : bool |- _ => destruct x end.
+Ltac tie_norm := rewrite ?py_insert_0, ?app_nil_r; cbn [app py_list rcatch rbind negb andb orb fst snd].
+Ltac tie_step := first [ progress tie_norm | match goal with |- context [rbind ?r _] => destruct r; cbn [rbind] end ].
 """
 # the box on which a regenerated function is compared with the hand model when the universal proof fails
 BOX = {
@@ -581,7 +625,8 @@ BOX = {
     "moveaxis_generic": ("'(s, a, b)", "flat_map (fun s => flat_map (fun a => map (fun b => (s, a, b)) (zrange (- Z.of_nat (length s) - 1) (2 * length s + 4))) (box_modes s)) box_shapes",
                          "F (arange s) a b"),
     "matricize": ("'(s, r, c)",
-                  "flat_map (fun s => flat_map (fun r => (s, r, None) :: map (fun c => (s, r, Some c)) (box_mode_lists s)) (box_mode_lists s)) "
+                  "flat_map (fun s => [(s, PInt 0, None); (s, PInt (-1), None); (s, PInt 1, Some (PInt 0)); (s, PSeq [1], Some (PInt 0)); (s, PInt 0, Some (PSeq [1; 2]))] ++ "
+                  "flat_map (fun r => (s, PSeq r, None) :: map (fun c => (s, PSeq r, Some (PSeq c))) (box_mode_lists s)) (box_mode_lists s)) "
                   "(flat_map (lists_over [0; 1; 2; 3]%nat) [0; 1; 2]%nat ++ [[2; 3; 2]; [1; 2; 3]; [0; 2; 1]]%nat)", "F (arange s) r c"),
 }
 
@@ -641,7 +686,8 @@ def run_ast_tie(chk):
         args = " ".join(p_ for p_, _ in sig)
         unf = ", ".join([f"ast_{n}" for n in ok_names] + [f"g_{n}" for n in ok_names])
         goal = (f"Goal forall (T : Type) (B : backend T) {binders}, ast_{name} B {args} = g_{name} B {args}.\n"
-                f"Proof. intros. first [ reflexivity | unfold {unf}; cbv zeta; tie_mon; reflexivity ]. Qed.\n")
+                f"Proof. intros. first [ reflexivity | unfold {unf}; cbv zeta; first [ tie_mon; reflexivity | repeat tie_step; reflexivity "
+                f"| tie_case; repeat tie_step; reflexivity ] ]. Qed.\n")
         fn = os.path.join(d, f"Tie_{name}.v")
         open(fn, "w").write(TIE_HEADER + defs + TIE_TACTIC + goal)
         procs.append((name, fn))
@@ -762,9 +808,70 @@ def repeat_call_predicate(chk):
 
 
 
+def dispatch_predicate(chk):
+    """the tl.* layer: tl.unfold, tl.fold, ... are the functions of tensorly/base.py re-exported, and inside them tl.reshape /
+    tl.moveaxis / tl.transpose / tl.shape / tl.ndim are resolved on EVERY call through the current backend (thread-local first,
+    then the global one).  In every backend state reachable with the installed backends (default; set_backend('numpy')
+    globally and thread-locally; inside backend_context, thread-safe or not; inside a fresh thread, before and after a
+    thread-local set_backend) each of the nine functions and of the three primitives must return exactly what it returns in
+    the default state, and the name tl.f must resolve to the very function object tensorly.base.f (recorded; C17 owns the
+    dispatch mechanism itself)."""
+    import threading
+    import tensorly as tl
+    from tensorly import base
+    a = labelled((2, 3, 2, 2))
+    calls = {
+        "tensor_to_vec": lambda: tl.tensor_to_vec(a), "vec_to_tensor": lambda: tl.vec_to_tensor(tl.tensor_to_vec(a), a.shape),
+        "unfold": lambda: tl.unfold(a, -2), "fold": lambda: tl.fold(tl.unfold(a, 2), 2, a.shape),
+        "partial_unfold": lambda: tl.partial_unfold(a, 1, 1, 1, True), "partial_fold": lambda: tl.partial_fold(tl.partial_unfold(a, 1, 1, 1, False), 1, a.shape, 1, 1),
+        "partial_tensor_to_vec": lambda: tl.partial_tensor_to_vec(a, 1, 1), "partial_vec_to_tensor": lambda: tl.partial_vec_to_tensor(tl.partial_tensor_to_vec(a, 1, 1), a.shape, 1, 1),
+        "matricize": lambda: base.matricize(a, [2, 0], [3, 1]),
+        "moveaxis": lambda: tl.moveaxis(a, -1, 1), "transpose": lambda: tl.transpose(a, [3, 0, 2, 1]), "reshape": lambda: tl.reshape(a, (4, -1)),
+    }
+    def snapshot():
+        out = {}
+        for k_, f in calls.items():
+            try:                       # (no common.call_impl here: its alarm signal only works in the main thread)
+                v = f(); st = "ok"
+            except Exception as e:     # noqa
+                v = f"{type(e).__name__}: {e}"; st = "raised"
+            out[k_] = (st, (str(v.dtype), v.shape, np.ascontiguousarray(v).tobytes()) if st == "ok" else str(v)[:80])
+        return out
+    base_snap = snapshot()
+    same_object = {k_: getattr(tl, k_, None) is getattr(base, k_) for k_ in calls if hasattr(base, k_) and hasattr(tl, k_)}
+    states = {}
+    try:
+        tl.set_backend("numpy"); states["set_backend('numpy')"] = snapshot()
+        tl.set_backend("numpy", local_threadsafe=True); states["set_backend('numpy', local_threadsafe=True)"] = snapshot()
+        with tl.backend_context("numpy"):
+            states["backend_context('numpy')"] = snapshot()
+        with tl.backend_context("numpy", local_threadsafe=True):
+            states["backend_context('numpy', local_threadsafe=True)"] = snapshot()
+        box = {}
+        def in_thread():
+            box["fresh thread"] = snapshot()
+            tl.set_backend("numpy", local_threadsafe=True)
+            box["fresh thread after a thread-local set_backend"] = snapshot()
+        th = threading.Thread(target=in_thread); th.start(); th.join()
+        states.update(box)
+        states["main thread after the other thread's set_backend"] = snapshot()
+    finally:
+        C.reset_backends()
+    for name, snap in states.items():
+        chk.cov["evaluations"] += len(snap)
+        for k_ in calls:
+            if snap.get(k_) != base_snap[k_]:
+                chk.finding(("tensorly." if k_ in ("moveaxis", "transpose", "reshape") else "tensorly.base.") + k_,
+                            {"shape": [2, 3, 2, 2], "descr": repr((f"{k_} in backend state: {name}",)), "dtype": "int64", "layout": "C"},
+                            f"{k_}: the result in the backend state `{name}` differs from the default state", "C01_backend_states")
+    chk.cov["tl_name_is_base_function_object"] = same_object
+    chk.cov["backend_states_compared"] = sorted(states)
+
+
+
 def entry_point(d):
     return {"moveaxis": "tensorly.moveaxis", "transpose": "tensorly.transpose", "reshape": "tensorly.reshape",
-            "moveaxis_generic": "tensorly.backend.core.Backend.moveaxis"}.get(d[0], f"tensorly.base.{d[0]}")
+            "moveaxis_generic": "tensorly.backend.core.Backend.moveaxis"}.get(d[0], "tensorly.base." + (d[0][:-2] if d[0].endswith("_z") else d[0]))
 
 
 def judge(d, shape, combos):
@@ -791,56 +898,171 @@ def judge(d, shape, combos):
     return (a_in, orig, out, tuple(codes)), msgs
 
 
+class ShardStream:
+    """Local variant of common.run_case_shards that evaluates shards WHILE the cases are still being produced: submit() writes a
+    shard file and queues it, NPROC runner threads start coqc on queued files at once; finish() waits, retries a killed /
+    timed-out shard once alone (as common does) and returns (failing ids, number evaluated, not-evaluated shards)."""
+    RX = re.compile(r"=\s*\((\d+)(?:%nat)?,\s*\[([\d;\s]*)\](?:%nat)?\)")
+
+    def __init__(self, prop, header, case_type, timeout=600):
+        import queue, threading
+        self.d = os.path.join(C.BUILD, "cases", prop, f"cases_{os.getpid()}")
+        shutil.rmtree(self.d, ignore_errors=True); os.makedirs(self.d, exist_ok=True)
+        self.header, self.case_type, self.timeout = header, case_type, timeout
+        self.q = queue.Queue(); self.k = 0
+        self.failing, self.n_eval, self.broken, self.sizes = set(), 0, [], {}
+        self.lock = threading.Lock()
+        self.threads = [threading.Thread(target=self._work, daemon=True) for _ in range(max(1, C.NPROC))]
+        for t in self.threads:
+            t.start()
+
+    def _coqc(self, fn, timeout):
+        p = subprocess.run(["timeout", str(timeout), "coqc", "-w", "none", "-R", os.path.join(C.COQ, "theories"), "TLV", fn],
+                           capture_output=True, text=True, cwd=self.d)
+        m = self.RX.search(p.stdout.replace("\n", " ").replace("%nat;", ";").replace("%nat]", "]"))
+        return p, m
+
+    def _work(self):
+        while True:
+            fn = self.q.get()
+            if fn is None:
+                return
+            p, m = self._coqc(fn, self.timeout)
+            with self.lock:
+                if p.returncode != 0 or not m or int(m.group(1)) != self.sizes[fn]:
+                    self.broken.append({"shard": fn, "rc": p.returncode, "stderr": p.stderr[-2000:], "stdout": p.stdout[-500:]})
+                else:
+                    self.n_eval += self.sizes[fn]
+                    self.failing.update(int(x) for x in m.group(2).replace(" ", "").split(";") if x)
+
+    def submit(self, chunk):
+        fn = os.path.join(self.d, f"S{self.k}.v"); self.k += 1
+        with open(fn, "w") as f:
+            f.write(self.header + "\n")
+            f.write(f"Definition cs : list {self.case_type} := [\n" + ";\n".join(chunk) + "\n].\n")
+            f.write("Eval vm_compute in (length cs, failing cs).\n")
+        self.sizes[fn] = len(chunk)
+        self.q.put(fn)
+
+    def finish(self):
+        for _ in self.threads:
+            self.q.put(None)
+        for t in self.threads:
+            t.join()
+        still = []
+        if self.broken and any("inconsistent assumptions" in (b.get("stderr") or "") for b in self.broken):
+            C.coq_make(["theories/Props/C01.vo", "theories/Corr/C01.vo"])
+        for b in self.broken:
+            p, m = self._coqc(b["shard"], 2 * self.timeout)
+            if p.returncode != 0 or not m or int(m.group(1)) != self.sizes[b["shard"]]:
+                still.append({"shard": b["shard"], "rc": p.returncode, "stderr": p.stderr[-2000:], "stdout": p.stdout[-500:], "retried": True})
+                continue
+            self.n_eval += self.sizes[b["shard"]]
+            self.failing.update(int(x) for x in m.group(2).replace(" ", "").split(";") if x)
+        if not still and not os.environ.get("VERIF_KEEP_CASES"):
+            shutil.rmtree(self.d, ignore_errors=True)
+        return self.failing, self.n_eval, still
+
+
+def _judge_chunk(items):
+    """worker of the process pool: run the implementation and the predicates on a chunk of requests; returns plain data"""
+    out = []
+    for d, shape, combos in items:
+        res, msgs = judge(d, shape, combos)
+        if res is None:
+            out.append(None)
+            continue
+        a_in, orig, o, codes = res
+        lit = f"{oplit(d)}, {arr_lit(a_in)}, {res_arr(o)}, ({C.z(codes[0])}, {C.z(codes[1])}))"
+        shown = None
+        if o[0] == "ok":
+            shown = np.asarray(o[1]).tolist() if np.asarray(o[1]).size <= 24 else str(o[1])[:80]
+        else:
+            shown = str(o[1])[:80]
+        out.append((lit, orig.size > 1 or o[0] != "ok", o[0], shown, msgs))
+    return out
+
+
 def run(chk):
+    import threading, multiprocessing, time
+    t_start = time.time(); phase = {}
     rng = random.Random(chk.seed)
     chk.build_proofs()
-    run_ast_tie(chk)
+    phase["build_and_print_assumptions"] = round(time.time() - t_start, 1)
+    # the source tie runs beside the case generation (coqc subprocesses); joined before the verdict
+    tie_box = {}
+    def _tie():
+        t0 = time.time(); run_ast_tie(chk); tie_box["s"] = round(time.time() - t0, 1)
+    tie_thread = threading.Thread(target=_tie); tie_thread.start()
     C.reset_backends()
-    cases, meta = [], []
     tier = chk.tier
     rot = {}
     all_combos = [(dt, lay) for dt in DTYPES for lay in LAYOUTS]
     seen_combo = set()
     defaults_predicate(chk)
     repeat_call_predicate(chk)
+    dispatch_predicate(chk)
     corpus = load_corpus()
     stream = itertools.chain(((tuple_deep(c["descr"]), tuple(c["shape"])) for c in corpus), gen_cases(tier, rng))
+    work = []
     for d, shape in stream:
-        # dtype x layout: quick rotates through all 48 combinations per function (one per case), thorough runs
-        # four rotating dtypes on the C layout plus every other layout on a rotating dtype (seven re-runs per case)
+        # dtype x layout: quick rotates through all combinations per function (one per case), thorough runs four rotating
+        # dtypes on the C layout plus every other layout on a rotating dtype
         k = rot.get(d[0], 0); rot[d[0]] = k + 1
         if tier == "quick":
             combos = [all_combos[(k * ROT_STEP) % len(all_combos)]]
         else:
             combos = [(DTYPES[(4 * k + j) % len(DTYPES)], "C") for j in range(4)] + [(DTYPES[(k + j) % len(DTYPES)], lay) for j, lay in enumerate(LAYOUTS[1:])]
-        res, msgs = judge(d, shape, combos)
-        if res is None:
+        work.append((d, shape, combos))
+    phase["requests_generated"] = round(time.time() - t_start, 1)
+    # the implementation calls and predicates run in a pool of forked workers (results come back in request order); every 800
+    # cases are handed to the shard stream at once, so Coq evaluates while Python still produces (the expensive high-order
+    # requests are generated first)
+    shards = ShardStream("C01", HEADER, "case")
+    nworkers = max(1, C.NPROC // 2)
+    chunks = [work[i:i + 400] for i in range(0, len(work), 400)]
+    cases, meta, pending = [], [], []
+    def consume(d, shape, combos, r):
+        if r is None:
             chk.hist("outcome", "no-input (the unfolding that makes the input is rejected, or a per-case timeout)")
-            continue
-        a_in, orig, out, codes = res
+            return
+        lit, nontrivial, st, shown, msgs = r
         cid = len(cases)
-        cases.append(f"({cid}%uint63, {oplit(d)}, {arr_lit(a_in)}, {res_arr(out)}, ({C.z(codes[0])}, {C.z(codes[1])}))")
-        meta.append((d, shape))
-        chk.count(key=(d, shape), nontrivial=orig.size > 1 or out[0] != "ok")
-        chk.hist("function", d[0]); chk.hist("order", len(shape)); chk.hist("outcome", out[0])
+        cases.append(None); meta.append((d, shape))
+        pending.append(f"({cid}%uint63, {lit}")
+        chk.count(key=(d, shape), nontrivial=nontrivial)
+        chk.hist("function", d[0]); chk.hist("order", len(shape)); chk.hist("outcome", st)
         if 0 in shape:
-            chk.hist("size0", d[0] + ":" + out[0])
-        if out[0] == "ok":
+            chk.hist("size0", d[0] + ":" + st)
+        if st == "ok":
             chk.cov["evaluations"] += len(combos)
             for c_ in combos:
                 seen_combo.add((d[0], "object" if c_[0] is object else np.dtype(c_[0]).str, c_[1]))
         if cid % 2999 == 0:
-            chk.sample({"call": repr(d), "input_shape": list(shape), "outcome": out[0],
-                        "output": (np.asarray(out[1]).tolist() if out[0] == "ok" and np.asarray(out[1]).size <= 24 else str(out[1])[:80])})
+            chk.sample({"call": repr(d), "input_shape": list(shape), "outcome": st, "output": shown})
         for msg, pred, extra in msgs:
             inputs = {"shape": list(shape), "descr": repr(d)}
             inputs.update(extra)
             chk.finding(entry_point(d), inputs, msg, pred)
-    # the expensive cases (orders 5-11, up to 1024 entries) are generated last: deal the cases round-robin so that
-    # every shard gets its share of them (each literal carries its own id)
-    nsh = max(1, -(-len(cases) // 800))
-    dealt = [cases[i] for k in range(nsh) for i in range(k, len(cases), nsh)]
-    failing, n_eval, broken = C.run_case_shards("C01", HEADER, "case", dealt, shard=-(-len(dealt) // nsh))
+        if len(pending) >= 800:
+            shards.submit(list(pending)); del pending[:]
+    if nworkers > 1:
+        with multiprocessing.get_context("fork").Pool(nworkers) as pool:
+            for items, results in zip(chunks, pool.imap(_judge_chunk, chunks)):
+                for (d, shape, combos), r in zip(items, results):
+                    consume(d, shape, combos, r)
+    else:
+        for items in chunks:
+            for (d, shape, combos), r in zip(items, _judge_chunk(items)):
+                consume(d, shape, combos, r)
+    if pending:
+        shards.submit(list(pending)); del pending[:]
+    phase["implementation_and_predicates_done"] = round(time.time() - t_start, 1)
+    failing, n_eval, broken = shards.finish()
+    phase["shards_done"] = round(time.time() - t_start, 1)
+    tie_thread.join()
+    phase["ast_tie_seconds"] = tie_box.get("s")
+    chk.cov["phase_seconds"] = phase
     chk.checker_cmds.append("coqc (vm_compute) on generated build/cases/C01/*.v: Corr.C01.failing")
     chk.cov["traces_validated_against_impl"] = n_eval
     chk.cov["exhaustive"] = True
@@ -851,16 +1073,24 @@ def run(chk):
                        "(skip_begin, skip_end, ravel) split with every documented mode 0 <= mode < ndim-skip_begin-skip_end (plus one non-existent mode; requests whose moved axis overlaps a skipped block are garbage-in and not generated) "
                        "x every ordered row/column split of matricize (order<=3; sampled above) + invalid requests "
                        "+ the backend primitives moveaxis (NumPy and the generic Backend.moveaxis) / transpose / reshape; entries are the distinct integers 0..n-1 so "
-                       "one run decides the shape for all values; each successful case is re-run on other dtypes / memory layouts (C, F, strided, negative strides) and must "
+                       "one run decides the shape for all values; each successful case is re-run on other dtypes / memory layouts (C, F, strided slice, negative strides, transposed view with rotated strides, read-only broadcast view with zero strides) and must "
                        "give the same re-arrangement of the same bytes; a case is non-trivial if the tensor has more than one entry or the request is rejected; "
                        "distinct key = (function, arguments, shape)")
     for b in broken:
         chk.broken.append({"what": "correspondence corr:C01 shard not evaluated", "detail": b})
+    # requests with negative skips are garbage-in: the hand-written g_f speaks for the source on them only when this run's
+    # tie proved  regenerated = g_f  for ALL arguments (a `box_only` tie covers non-negative skips only)
+    proved = set((chk.cov.get("ast_tie") or {}).get("proved_universally", []))
+    dropped = 0
     for i in sorted(failing):
         d, shape = meta[i]
+        if d[0].endswith("_z") and not {d[0][:-2], "partial_unfold" if "unfold" in d[0] or "to_vec" in d[0] else "partial_fold"} <= proved:
+            dropped += 1
+            continue
         chk.disagreement("corr:C01 (Model/Base.v vs tensorly/base.py)", {"descr": repr(d), "shape": list(shape)})
+    chk.cov["negative_skip_disagreements_not_judged_because_the_tie_is_box_only"] = dropped
     chk.assumptions = ["NumPy reshape/moveaxis/transpose behave as modelled in Base/Tensor.v (checked on this run's primitive cases and, through the "
-                       "dtype/layout re-runs, on F-contiguous, strided and negative-stride views)",
+                       "dtype/layout re-runs, on F-contiguous, strided, negative-stride, transposed and zero-stride broadcast views)",
                        "tensor data are compared as lists of labels / bytes of the logical row-major order; memory layout of the result is not part of the property"]
     chk.trusted = ["the ast translator harness/props/C01_ast.py (Python ast -> Gallina over the abstract backend) and the Python list / int semantics of "
                    "Model/BasePy.v (py_getitem, py_pop, py_insert, py_range1/3, rmapM, py_sorted); a construct outside its fragment is reported as a broken tie",
@@ -897,11 +1127,11 @@ def replay(payload):
     C.reset_backends()
     d = tuple_deep(ast.literal_eval(inp["descr"]))
     shape = tuple(inp["shape"])
-    if len(d) == 1 and ("(" in d[0] or "repeated" in d[0]):          # a finding of defaults_predicate / repeat_call_predicate
+    if len(d) == 1 and ("(" in d[0] or "repeated" in d[0] or "backend state" in d[0]):          # a finding of defaults_predicate / repeat_call_predicate
         class _Chk:
             cov = {"evaluations": 0}; found = []
             def finding(self, *a): self.found.append(a)
-        c_ = _Chk(); defaults_predicate(c_); repeat_call_predicate(c_)
+        c_ = _Chk(); defaults_predicate(c_); repeat_call_predicate(c_); dispatch_predicate(c_)
         print("replay:", d, "->", c_.found[0][2] if c_.found else "holds")
         return 1 if c_.found else 0
     dtn = inp.get("dtype", "int64")
